@@ -51,7 +51,7 @@ from .ast_nodes import (
 )
 from .opcodes import OpCode
 from .values import UNDEFINED
-from .errors import JSError
+from .errors import JSError, JSSyntaxError
 
 
 @dataclass
@@ -477,6 +477,13 @@ class Compiler:
 
     # ---- Statements ----
 
+    def _syntax_error(self, node: Node, message: str) -> JSSyntaxError:
+        """A static error found while compiling, positioned at the statement."""
+        if node.loc is not None:
+            return JSSyntaxError(message, node.loc.line, node.loc.column)
+        line, column = getattr(self, "_current_loc", None) or (0, 0)
+        return JSSyntaxError(message, line or 0, column or 0)
+
     def _compile_statement(self, node: Node) -> None:
         """Compile a statement."""
         self._set_loc(node)  # errors raised while it runs report where it starts
@@ -726,7 +733,7 @@ class Compiler:
 
         elif isinstance(node, BreakStatement):
             if not self.loop_stack:
-                raise SyntaxError("'break' outside of loop")
+                raise self._syntax_error(node, "'break' outside of loop")
 
             # Find the right loop context (labeled or innermost loop/switch)
             target_label = node.label.name if node.label else None
@@ -747,9 +754,9 @@ class Compiler:
 
             if ctx is None:
                 if target_label:
-                    raise SyntaxError(f"label '{target_label}' not found")
+                    raise self._syntax_error(node, f"label '{target_label}' not found")
                 else:
-                    raise SyntaxError("'break' outside of loop")
+                    raise self._syntax_error(node, "'break' outside of loop")
 
             # Leave everything nested inside the target: operands, handlers, finally blocks
             self._emit_exit_cleanup(self.loop_stack.index(ctx))
@@ -759,7 +766,7 @@ class Compiler:
 
         elif isinstance(node, ContinueStatement):
             if not self.loop_stack:
-                raise SyntaxError("'continue' outside of loop")
+                raise self._syntax_error(node, "'continue' outside of loop")
 
             # Find the right loop context (labeled or innermost loop, not switch)
             target_label = node.label.name if node.label else None
@@ -773,7 +780,9 @@ class Compiler:
                     break
 
             if ctx is None:
-                raise SyntaxError(f"label '{target_label}' not found")
+                if target_label is None:
+                    raise self._syntax_error(node, "'continue' outside of loop")
+                raise self._syntax_error(node, f"label '{target_label}' not found")
 
             # Leave everything nested inside the target: operands, handlers, finally blocks
             self._emit_exit_cleanup(self.loop_stack.index(ctx))
